@@ -1,0 +1,80 @@
+//! Verification hook (only compiled with `--cfg julianschmid_etherparse_verif`): a list-based stand-in for
+//! `std::collections::HashMap` with the small API subset `IpDefragPool` uses, so that a bounded model checker can
+//! execute the pool (std's hash table with its random keys is out of its reach). Keys are compared with `Eq` only -
+//! the contract of a map - so the pool's behaviour is the same as with any correct `HashMap`.
+use std::vec::Vec;
+
+#[derive(Debug, Clone)]
+pub struct HashMap<K, V> {
+    items: Vec<(K, V)>,
+}
+
+pub enum Entry<'a, K, V> {
+    Occupied(OccupiedEntry<'a, K, V>),
+    Vacant(VacantEntry<'a, K, V>),
+}
+
+pub struct OccupiedEntry<'a, K, V> {
+    map: &'a mut HashMap<K, V>,
+    index: usize,
+}
+
+pub struct VacantEntry<'a, K, V> {
+    map: &'a mut HashMap<K, V>,
+    key: K,
+}
+
+impl<K: Eq, V> HashMap<K, V> {
+    pub fn new() -> Self {
+        HashMap { items: Vec::new() }
+    }
+
+    pub fn len(&self) -> usize {
+        self.items.len()
+    }
+
+    pub fn entry(&mut self, key: K) -> Entry<'_, K, V> {
+        let mut i = 0;
+        while i < self.items.len() {
+            if self.items[i].0 == key {
+                return Entry::Occupied(OccupiedEntry { map: self, index: i });
+            }
+            i += 1;
+        }
+        Entry::Vacant(VacantEntry { map: self, key })
+    }
+
+    pub fn iter(&self) -> impl Iterator<Item = (&K, &V)> {
+        self.items.iter().map(|(k, v)| (k, v))
+    }
+
+    pub fn drain(&mut self) -> std::vec::Drain<'_, (K, V)> {
+        self.items.drain(..)
+    }
+}
+
+impl<K: Eq, V> core::iter::FromIterator<(K, V)> for HashMap<K, V> {
+    fn from_iter<T: IntoIterator<Item = (K, V)>>(iter: T) -> Self {
+        HashMap {
+            items: iter.into_iter().collect(),
+        }
+    }
+}
+
+impl<K, V> OccupiedEntry<'_, K, V> {
+    pub fn get_mut(&mut self) -> &mut V {
+        &mut self.map.items[self.index].1
+    }
+
+    pub fn remove(self) -> V {
+        self.map.items.swap_remove(self.index).1
+    }
+}
+
+impl<'a, K, V> VacantEntry<'a, K, V> {
+    pub fn insert(self, value: V) -> &'a mut V {
+        self.map.items.push((self.key, value));
+        let last = self.map.items.len() - 1;
+        &mut self.map.items[last].1
+    }
+}
